@@ -22,8 +22,8 @@ fn main() {
             };
             let seed: u64 = arg(&args, "--seed").and_then(|s| s.parse().ok()).unwrap_or(0);
             let threads: usize = arg(&args, "--threads").and_then(|s| s.parse().ok()).unwrap_or(16);
-            let out = arg(&args, "--out").unwrap_or_else(|| format!("/verif/.scratch/{}.{}.json", prop, profile()));
-            let known = load_known("/verif/known_findings.json");
+            let out = arg(&args, "--out").unwrap_or_else(|| format!("{}/.scratch/{}.{}.json", fv::util::root(), prop, profile()));
+            let known = load_known(&format!("{}/known_findings.json", fv::util::root()));
             let mut ctx = Ctx::new(&prop, tier, seed, threads, known);
             ctx.strict = args.iter().any(|a| a == "--strict");
             ctx.only = arg(&args, "--only");
@@ -127,7 +127,7 @@ fn main() {
         Some("gen-corpus") => {
             // fv gen-corpus <dir>: deterministic seed inputs for the fuzz targets
             use fv::framegen::Chooser;
-            let dir = args.get(2).cloned().unwrap_or_else(|| "/verif/corpus".into());
+            let dir = args.get(2).cloned().unwrap_or_else(|| format!("{}/corpus", fv::util::root()));
             for t in fv::fuzzing::TARGETS {
                 std::fs::create_dir_all(format!("{dir}/{t}")).unwrap();
             }
